@@ -17,8 +17,8 @@ CLAIMED = {
         note="Trusted: Lean kernel; translator for the tables; numeric values of http::StatusCode constants (hand table checked against the http crate each run); syn extraction of the chain; serde body decoding not modelled. Three defect classes (content-type fall-through, non-canonical keys, schema-suffix panic) are reproduced by the model and recorded as known findings.",
         ref="§6 C04"),
     "C03": dict(
-        text="Lean 4 proofs over a model of the path-template tokenizer/segment builder and of url's push + percent-decode: an accepted template segment is the concatenation of its parts, literals are brace-free, the emitted format! template has exactly one {} per argument and no other brace, percent-decoding an encoded segment returns the original bytes for ALL byte strings and never contains a separator, path-level/operation-level parameter merge lets the operation win. Tied to the code by exhaustive templates through ParsedPath::parse, exhaustive short strings through the real url crate, and by judging the client method emitted by the current sources (method, pushes vs template, query/header presence, body encoder, validate-before-send) on random operations.",
-        note="Trusted: Lean kernel; Sem/Url.lean as a model of url 2.5/percent-encoding (validated differentially); reqwest/serde_urlencoded wire encoding is not modelled (which builder call is emitted is). Five defect classes recorded as known findings (dot segments, control chars, empty first segment, OPTIONS/TRACE panic, parameter field clash).",
+        text="Lean 4 proofs over a model of the path-template tokenizer/segment builder and of url's push + percent-decode: an accepted template segment is the concatenation of its parts, literals are brace-free, the emitted format! template has exactly one {} per argument and no other brace, percent-decoding an encoded segment returns the original bytes for ALL byte strings and never contains a separator, path-level/operation-level parameter merge lets the operation win. Tied to the code by exhaustive templates through ParsedPath::parse, exhaustive short strings through the real url crate, and by judging the client method emitted by the current sources (method, pushes vs template, query/header presence, body encoder, validate-before-send) on random operations. Query and header parameters are judged member by member on the emitted code (serde key = exact original name, delimiter adapter per style/explode, Option-ness, header constant value = lower-cased name, value expression from a closed set of forms, conditional insertion iff optional) against clauses proved sound for the modelled serializers (a member/insertion the judge accepts yields exactly the prescribed pairs/value for every value of the parameter's shape; joined array values split back into their items, empty items included).",
+        note="Trusted: Lean kernel; Sem/Url.lean as a model of url 2.5/percent-encoding (validated differentially); reqwest/serde_urlencoded wire encoding is not modelled (which builder call is emitted is). serde rename / serde_with separator adapters / serde_urlencoded are modelled as stated in Model/ClientWire.lean (sequence rejection reproduced at run time), the syn reading of query structs and header-map impls is trusted (unrecognised constructs fail the judge). Eight defect classes recorded as known findings (dot segments, control chars, empty first segment, OPTIONS/TRACE panic [fixed], parameter field clash, exploded query arrays, delimited arrays of non-strings, required header with default).",
         ref="§6 C03"),
     "C05": dict(
         text="Lean 4 proofs that the routing-function table is injective on the eight OpenAPI methods (so the `_ => get` arm is reached only by GET), that the status sent for every exact token equals its code over the regenerated tables, and (shared with C03) that the axum pattern of a segment is the template with parameters renamed; the router table, handler signatures, error mapping and IntoResponse tables emitted by the current sources in server-mod are parsed with syn, compared with the model (routes per path/method, status+encoding per variant from the C04 variant model) and judged against the spec on every generated multi-operation spec.",
